@@ -46,7 +46,7 @@ type Report struct {
 	Rules     map[string]string // rule -> one-line statement
 	Fixtures  []FixtureResult
 	Extra     map[string]interface{}
-	AltCounts map[string]int // per-rule instance counts seen on the inlining views
+	AltCounts map[string]int    // per-rule instance counts seen on the inlining views
 	Covers    map[string]string // function name -> rule that analyses it as part of another construct
 	Alias     map[string]string // while set: obligations of rule k are recorded under rule Alias[k] (a rule set re-run as a helper rule)
 }
